@@ -11,6 +11,7 @@ import (
 	"sort"
 	"strings"
 	"testing"
+	"unicode"
 
 	"pgregory.net/rapid"
 
@@ -27,8 +28,12 @@ import (
 const P = "C14"
 
 type kcCase struct {
-	Version   uint32 `json:"version"`
-	Exponent  uint32 `json:"exponent"`
+	Version  uint32 `json:"version"`
+	Exponent uint32 `json:"exponent"`
+	// width in bytes of the big-endian exponent field in the blob the harness writes (foreign blobs:
+	// BCRYPT_RSAKEY_BLOB has cbPublicExp for it, Windows writes 65537 in three bytes); 0: the width the
+	// library's own serialisation of the case uses
+	ExpWidth  int    `json:"foreign_exponent_width,omitempty"`
 	Modulus   vf.Hex `json:"modulus"`
 	Prime1    vf.Hex `json:"prime1,omitempty"`
 	Prime2    vf.Hex `json:"prime2,omitempty"`
@@ -253,9 +258,10 @@ func sameMultiset(a, b [][]byte) bool {
 // identifier has the same values (as a multiset) in both, and - because the key hash covers the
 // entries after it in the order they stand in - the library's key hash entry is the SHA-256 of what
 // follows it in the library's blob. carried: the library's blob is the re-serialisation of a credential
-// parsed from ref, whose KeyHash field ToBytes may write back as parsed, i.e. the hash of the entries in
-// ref's order; that value is accepted as well then. "" if the blobs agree, otherwise what differs.
-func sameModuloTies(lib, ref []byte, carried bool) string {
+// parsed from a harness blob, whose KeyHash field ToBytes may write back as parsed, i.e. the hash
+// that blob stores; that value (nil: none) is accepted as well then. "" if the blobs agree, otherwise
+// what differs.
+func sameModuloTies(lib, ref []byte, carried []byte) string {
 	if bytes.Equal(lib, ref) {
 		return ""
 	}
@@ -294,26 +300,51 @@ func sameModuloTies(lib, ref []byte, carried bool) string {
 		}
 	}
 	start, stored, ok := hashRegion(lib)
-	_, refStored, refHas := hashRegion(ref)
+	_, _, refHas := hashRegion(ref)
 	if ok != refHas {
 		return first
 	}
 	if ok {
-		if want := sha256.Sum256(lib[start:]); !bytes.Equal(stored, want[:]) && !(carried && bytes.Equal(stored, refStored)) {
+		if want := sha256.Sum256(lib[start:]); !bytes.Equal(stored, want[:]) && !(carried != nil && bytes.Equal(stored, carried)) {
 			return first + "; the key hash is not the SHA-256 of the entries after it"
 		}
 	}
 	return ""
 }
 
+// identifierBytes: the key identifier a credential holds, in binary. The Identifier field is text, and
+// how the 32 bytes are presented there (letter case of the hexadecimal form, base64 with or without
+// padding) is the library's choice: the value is what is compared. The harness reads hexadecimal in
+// either case and base64 with or without padding itself; a text it cannot read is given to the
+// library's own ConvertToBinaryIdentifier.
+func identifierBytes(text string, ver key.KeyCredentialVersion) ([]byte, error) {
+	if b, err := hex.DecodeString(text); err == nil && len(b) == sha256.Size {
+		return b, nil
+	}
+	if b, err := base64.RawStdEncoding.DecodeString(strings.TrimRight(text, "=")); err == nil && len(b) == sha256.Size {
+		return b, nil
+	}
+	return kcutils.ConvertToBinaryIdentifier(text, ver)
+}
+
+// materialEntry: the key material entry (identifier 0x03) as it stands in a blob.
+func materialEntry(es []entry) []byte {
+	for _, e := range es {
+		if e.Type == 0x03 {
+			return e.Value
+		}
+	}
+	return nil
+}
+
 // compareParsed: every field the statement lists, on a credential parsed from a blob of case c.
-func compareParsed(back *keycredentiallink.KeyCredential, c kcCase, wantID string, wantUsage uint8, wantSource key.KeySource) []vf.Finding {
+func compareParsed(back *keycredentiallink.KeyCredential, c kcCase, wantID []byte, wantUsage uint8, wantSource key.KeySource) []vf.Finding {
 	var fs []vf.Finding
 	if back.Version.Value != c.Version {
 		fs = append(fs, vf.F("KeyCredential.FromBytes", "version-not-preserved", "%#x want %#x", back.Version.Value, c.Version))
 	}
-	if back.Identifier != wantID {
-		fs = append(fs, vf.F("KeyCredential.FromBytes", "identifier-not-preserved", "%q want %q", back.Identifier, wantID))
+	if got, err := identifierBytes(back.Identifier, back.Version); err != nil || !bytes.Equal(got, wantID) {
+		fs = append(fs, vf.F("KeyCredential.FromBytes", "identifier-not-preserved", "%q is %x (%v) want %x, the SHA-256 of the key material", back.Identifier, got, err, wantID))
 	}
 	m := back.RawKeyMaterial
 	if m.Exponent != c.Exponent || !bytes.Equal(m.Modulus, c.Modulus) || !bytes.Equal(m.Prime1, c.Prime1) || !bytes.Equal(m.Prime2, c.Prime2) || m.KeySize != c.KeySize {
@@ -398,7 +429,13 @@ func checkBlob(c kcCase) []vf.Finding {
 	if err != nil {
 		return append(fs, vf.F("KeyCredential.FromBytes", "own-blob-rejected", "%v", err))
 	}
-	fs = append(fs, compareParsed(&back, c, kc.Identifier, kc.Usage.Value, kc.Source)...)
+	// the identifier the credential was built with is the SHA-256 of its key material, which is what the
+	// blob carries as entry 0x03
+	wantID := sha256.Sum256(materialEntry(es))
+	if given, err := identifierBytes(kc.Identifier, kc.Version); err != nil || !bytes.Equal(given, wantID[:]) {
+		fs = append(fs, vf.F("ComputeKeyIdentifier", "identifier-is-not-sha256-of-key-material", "%q is %x (%v), the key material in the blob hashes to %x", kc.Identifier, given, err, wantID))
+	}
+	fs = append(fs, compareParsed(&back, c, wantID[:], kc.Usage.Value, kc.Source)...)
 	if !back.CheckIntegrity() {
 		fs = append(fs, vf.F("KeyCredential.CheckIntegrity", "parsed-credential-fails-check", ""))
 	}
@@ -428,6 +465,11 @@ func genKC(t *rapid.T) kcCase {
 		c.Exponent = 65537
 	default:
 		c.Exponent = rapid.Uint32Range(1, 0xFFFFFFFF).Draw(t, "exp")
+	}
+	// harness-written blobs: the exponent in the width the library itself writes (0), or in any width
+	// from the shortest that holds it up to four bytes (3 -> 03, 65537 -> 01 00 01 as Windows writes it)
+	if rapid.Bool().Draw(t, "foreignExpWidthOwn") {
+		c.ExpWidth = rapid.IntRange(minExpWidth(c.Exponent), 4).Draw(t, "foreignExpWidth")
 	}
 	var ml int
 	switch rapid.IntRange(0, 3).Draw(t, "modClass") {
@@ -481,8 +523,16 @@ func genKC(t *rapid.T) kcCase {
 		if rapid.Bool().Draw(t, "legacyKnown") {
 			c.Legacy = []byte(rapid.SampledFrom([]string{"NGC", "FIDO", "FEK", "STK", "KeySigning"}).Draw(t, "legacyName"))
 		} else {
-			ll := rapid.IntRange(2, 24).Draw(t, "legacyLen")
-			c.Legacy = rapid.SliceOfN(rapid.Byte(), ll, ll).Draw(t, "legacyBytes")
+			// the entry holds a name: printable text in valid UTF-8 (what a reader does with bytes that
+			// are not text is not the statement's subject)
+			ll := rapid.IntRange(2, 12).Draw(t, "legacyLen")
+			rs := make([]rune, ll)
+			for i := range rs {
+				if rs[i] = alpha.Rune(t, ""); !unicode.IsPrint(rs[i]) {
+					rs[i] = 'x'
+				}
+			}
+			c.Legacy = []byte(string(rs))
 		}
 	}
 	if rapid.Bool().Draw(t, "customKeyInfo") {
@@ -494,7 +544,9 @@ func genKC(t *rapid.T) kcCase {
 // genCKI draws a CustomKeyInformation of each length the format distinguishes: the two-byte short
 // form, the prefixes ending after volume type / notification flag / FEK version / strength /
 // the reserved bytes, and the full form with extended data. Version is 1 (the only one defined),
-// the notification byte is a boolean 0/1, flags use the two defined bits.
+// the notification byte is a boolean 0/1, flags use the two defined bits, volume type and strength
+// take the values MS-ADTS 2.2.20.4 defines (0..3 and 0..2; what a reader does with others is not
+// the statement's subject). FEK key version, reserved bytes and extended data are arbitrary.
 func genCKI(t *rapid.T) []byte {
 	n := rapid.SampledFrom([]int{2, 3, 4, 5, 9, 19, 20, 0}).Draw(t, "ckiLen")
 	if n == 0 {
@@ -503,13 +555,13 @@ func genCKI(t *rapid.T) []byte {
 	raw := rapid.SliceOfN(rapid.Byte(), n, n).Draw(t, "ckiBytes")
 	raw[0] = 1
 	raw[1] = byte(rapid.IntRange(0, 3).Draw(t, "ckiFlags"))
-	if n >= 3 && rapid.Bool().Draw(t, "ckiVolDefined") {
+	if n >= 3 {
 		raw[2] &= 3
 	}
 	if n >= 4 {
 		raw[3] &= 1
 	}
-	if n >= 9 && rapid.Bool().Draw(t, "ckiStrengthDefined") {
+	if n >= 9 {
 		raw[5], raw[6], raw[7], raw[8] = raw[5]%3, 0, 0, 0
 	}
 	return raw
@@ -668,6 +720,29 @@ func checkDN(c dnCase) []vf.Finding {
 	return fs
 }
 
+// escapeDNValue writes an attribute value the way RFC 4514 2.4 has it in a distinguished name (and
+// Active Directory emits it): the specials , + " \ < > ; = are backslash-escaped, as are a leading '#'
+// or space and a trailing space. ':' is not special in a DN and stands as it is.
+func escapeDNValue(v string) string {
+	var sb strings.Builder
+	rs := []rune(v)
+	for i, r := range rs {
+		switch {
+		case strings.ContainsRune(`,+"\<>;=`, r):
+			sb.WriteByte('\\')
+			sb.WriteRune(r)
+		case (i == 0 && (r == '#' || r == ' ')) || (i == len(rs)-1 && r == ' '):
+			sb.WriteByte('\\')
+			sb.WriteRune(r)
+		default:
+			sb.WriteRune(r)
+		}
+	}
+	return sb.String()
+}
+
+// genDNText draws a distinguished name in the RFC 4514 string form: RDNs of a type and a value, the
+// value any text (with ':' and the DN specials over-represented) escaped as escapeDNValue does.
 func genDNText(t *rapid.T) string {
 	n := rapid.IntRange(0, 5).Draw(t, "rdns")
 	var parts []string
@@ -678,12 +753,13 @@ func genDNText(t *rapid.T) string {
 		for j := 0; j < vl; j++ {
 			switch rapid.IntRange(0, 9).Draw(t, "vc") {
 			case 0:
-				sb.WriteString(rapid.SampledFrom([]string{":", "\\,", " ", "\\\\", "::", "B:", ":0:"}).Draw(t, "special"))
+				sb.WriteString(rapid.SampledFrom([]string{":", ",", " ", "\\", "::", "B:", ":0:", "\"", ";", "<", ">", "+", "=", "#"}).Draw(t, "special"))
 			default:
-				sb.WriteRune(alpha.Rune(t, ",\\"))
+				// NUL has no literal form in a DN (RFC 4514 writes it \00)
+				sb.WriteRune(alpha.Rune(t, "\x00"))
 			}
 		}
-		parts = append(parts, typ+"="+sb.String())
+		parts = append(parts, typ+"="+escapeDNValue(sb.String()))
 	}
 	return strings.Join(parts, ",")
 }
@@ -722,7 +798,9 @@ func TestDNWithBinaryCredential(t *testing.T) {
 		if err := kc2.ParseDNWithBinary(back); err != nil {
 			return []vf.Finding{vf.F("KeyCredential.ParseDNWithBinary", "own-blob-rejected", "%v", err)}
 		}
-		if !kc2.CheckIntegrity() || kc2.Identifier != kc.Identifier || back.DistinguishedName != dn {
+		id, _ := identifierBytes(kc.Identifier, kc.Version)
+		id2, err := identifierBytes(kc2.Identifier, kc2.Version)
+		if !kc2.CheckIntegrity() || err != nil || !bytes.Equal(id2, id) || back.DistinguishedName != dn {
 			return []vf.Finding{vf.F("KeyCredential.ParseDNWithBinary", "credential-not-preserved", "integrity %v", kc2.CheckIntegrity())}
 		}
 		return nil
@@ -732,20 +810,57 @@ func TestDNWithBinaryCredential(t *testing.T) {
 // ---- blobs written by the harness ------------------------------------------------------------------------
 //
 // The blob of a case as MS-ADTS 2.2.20 lays it out, written without the library: version, then the
-// entries in increasing identifier order, BCRYPT_RSAKEY_BLOB key material with a four-byte exponent,
-// key id = SHA-256 of the key material, key hash = SHA-256 of everything after the hash entry.
+// entries in increasing identifier order, BCRYPT_RSAKEY_BLOB key material, key id = SHA-256 of the key
+// material, key hash = SHA-256 of everything after the hash entry. BCRYPT_RSAKEY_BLOB gives the
+// big-endian public exponent a length field of its own (cbPublicExp), so how many bytes a writer spends
+// on it is its choice (Windows writes 65537 in three, the library in four): the writer takes the width
+// as a parameter.
 
-func refMaterial(c kcCase) []byte {
+// minExpWidth: the number of bytes the exponent needs.
+func minExpWidth(e uint32) int {
+	w := 1
+	for e >>= 8; e != 0; e >>= 8 {
+		w++
+	}
+	return w
+}
+
+// refMaterial: the key material with an exponent field of expWidth bytes (which must hold the exponent).
+func refMaterial(c kcCase, expWidth int) []byte {
 	b := []byte("RSA1")
 	b = binary.LittleEndian.AppendUint32(b, c.KeySize)
-	b = binary.LittleEndian.AppendUint32(b, 4)
+	b = binary.LittleEndian.AppendUint32(b, uint32(expWidth))
 	b = binary.LittleEndian.AppendUint32(b, uint32(len(c.Modulus)))
 	b = binary.LittleEndian.AppendUint32(b, uint32(len(c.Prime1)))
 	b = binary.LittleEndian.AppendUint32(b, uint32(len(c.Prime2)))
-	b = binary.BigEndian.AppendUint32(b, c.Exponent)
+	for i := expWidth - 1; i >= 0; i-- {
+		if i >= 4 {
+			b = append(b, 0)
+		} else {
+			b = append(b, byte(c.Exponent>>(8*uint(i))))
+		}
+	}
 	b = append(b, c.Modulus...)
 	b = append(b, c.Prime1...)
 	return append(b, c.Prime2...)
+}
+
+// expWidthIn: the width of the exponent field (cbPublicExp) in the key material entry of a blob, 0 if
+// the blob has no such entry or the entry is shorter than the BCRYPT_RSAKEY_BLOB header.
+func expWidthIn(blob []byte) int {
+	_, es, err := walk(blob)
+	if err != nil {
+		return 0
+	}
+	m := materialEntry(es)
+	if len(m) < 24 || string(m[:4]) != "RSA1" {
+		return 0
+	}
+	w := binary.LittleEndian.Uint32(m[8:12])
+	if uint64(w) > uint64(len(m)-24) {
+		return 0
+	}
+	return int(w)
 }
 
 func (c kcCase) usageSource() (uint8, key.KeySource) {
@@ -759,15 +874,19 @@ func (c kcCase) usageSource() (uint8, key.KeySource) {
 	return u, s
 }
 
-func refIdentifier(c kcCase) (raw []byte, text string) {
-	h := sha256.Sum256(refMaterial(c))
-	if c.Version == key.KeyCredentialVersion_2 {
-		return h[:], base64.StdEncoding.EncodeToString(h[:])
-	}
-	return h[:], hex.EncodeToString(h[:])
+// refIdentifier: the key identifier, the SHA-256 of the key material.
+func refIdentifier(c kcCase, expWidth int) []byte {
+	h := sha256.Sum256(refMaterial(c, expWidth))
+	return h[:]
 }
 
-func refBlob(c kcCase) []byte {
+func refBlob(c kcCase, expWidth int) []byte {
+	return refBlobID(c, expWidth, refIdentifier(c, expWidth))
+}
+
+// refBlobID: the blob with a given key identifier entry (refBlob: the SHA-256 of the key material as
+// written).
+func refBlobID(c kcCase, expWidth int, id []byte) []byte {
 	ent := func(b []byte, typ byte, v []byte) []byte {
 		b = binary.LittleEndian.AppendUint16(b, uint16(len(v)))
 		b = append(b, typ)
@@ -775,7 +894,7 @@ func refBlob(c kcCase) []byte {
 	}
 	usage, source := c.usageSource()
 	var tail []byte
-	tail = ent(tail, 0x03, refMaterial(c))
+	tail = ent(tail, 0x03, refMaterial(c, expWidth))
 	tail = ent(tail, 0x04, []byte{usage})
 	if len(c.Legacy) > 0 {
 		tail = ent(tail, 0x04, c.Legacy)
@@ -785,7 +904,6 @@ func refBlob(c kcCase) []byte {
 	tail = ent(tail, 0x07, c.cki())
 	tail = ent(tail, 0x08, binary.LittleEndian.AppendUint64(nil, c.LastLogon))
 	tail = ent(tail, 0x09, binary.LittleEndian.AppendUint64(nil, c.Creation))
-	id, _ := refIdentifier(c)
 	hash := sha256.Sum256(tail)
 	b := binary.LittleEndian.AppendUint32(nil, c.Version)
 	b = ent(b, 0x01, id)
@@ -801,9 +919,34 @@ func diffAt(a, b []byte) int {
 	return d
 }
 
+// libExpWidth: the width of the exponent field in the library's own serialisation of case c (the
+// library's choice; 4 if it cannot be read off, which the comparison with the harness's blob reports).
+func libExpWidth(c kcCase) (own []byte, width int) {
+	width = 4
+	if built, _ := c.build(); built != nil {
+		if b, err := built.ToBytes(); err == nil {
+			own = b
+			if w := expWidthIn(b); w >= minExpWidth(c.Exponent) {
+				width = w
+			}
+		}
+	}
+	return
+}
+
+// foreignBlob: the harness-written blob of case c, with the exponent width the case names or, if it
+// names none, the one the library itself uses.
+func foreignBlob(c kcCase) (blob []byte, expWidth int) {
+	expWidth = c.ExpWidth
+	if expWidth < minExpWidth(c.Exponent) {
+		_, expWidth = libExpWidth(c)
+	}
+	return refBlob(c, expWidth), expWidth
+}
+
 func checkForeignBlob(c kcCase) []vf.Finding {
 	var fs []vf.Finding
-	blob := refBlob(c)
+	blob, expWidth := foreignBlob(c)
 	var kc keycredentiallink.KeyCredential
 	arg := track(blob)
 	err := kc.FromBytes(arg.buf)
@@ -811,27 +954,38 @@ func checkForeignBlob(c kcCase) []vf.Finding {
 	if err != nil {
 		return append(fs, vf.F("KeyCredential.FromBytes", "well-formed-blob-rejected", "%x: %v", blob, err))
 	}
-	_, id := refIdentifier(c)
 	usage, source := c.usageSource()
-	fs = append(fs, compareParsed(&kc, c, id, usage, source)...)
+	fs = append(fs, compareParsed(&kc, c, refIdentifier(c, expWidth), usage, source)...)
 	if !kc.CheckIntegrity() {
 		fs = append(fs, vf.F("KeyCredential.CheckIntegrity", "intact-blob-fails-check", "stored hash is the SHA-256 of the entries after it"))
 	}
 	// the harness's blob puts the numeric KeyUsage entry before the string-valued one; both carry
 	// identifier 0x04, so a writer may order them the other way round (sameModuloTies)
+	// A blob whose exponent field has another width than the library writes: a writer that keeps the
+	// width it read gives the blob back byte for byte; one that writes its own width gives the same
+	// credential (the identifier that was parsed included) with the exponent in that width, which is
+	// what the harness's blob is rebuilt with then. A blob in the library's own width comes back as it is.
+	_, stored, _ := hashRegion(blob)
 	again, err := kc.ToBytes()
 	if err != nil {
 		fs = append(fs, vf.F("KeyCredential.ToBytes", "reserialised-blob-differs", "err %v", err))
-	} else if diff := sameModuloTies(again, blob, true); diff != "" {
-		fs = append(fs, vf.F("KeyCredential.ToBytes", "reserialised-blob-differs", "%s", diff))
+	} else {
+		ref := blob
+		if w := expWidthIn(again); w != expWidth && w >= minExpWidth(c.Exponent) {
+			if _, own := libExpWidth(c); w == own {
+				ref = refBlobID(c, w, refIdentifier(c, expWidth))
+			}
+		}
+		if diff := sameModuloTies(again, ref, stored); diff != "" {
+			fs = append(fs, vf.F("KeyCredential.ToBytes", "reserialised-blob-differs", "%s", diff))
+		}
 	}
 	arg.untouched("KeyCredential.CheckIntegrity/ToBytes", &fs)
-	// the library's own serialisation of the same credential is this blob too
-	if built, _ := c.build(); built != nil {
-		if own, err := built.ToBytes(); err == nil {
-			if diff := sameModuloTies(own, blob, false); diff != "" {
-				fs = append(fs, vf.F("KeyCredential.ToBytes", "blob-differs-from-ms-adts-layout", "%s", diff))
-			}
+	// the library's own serialisation of the same credential is the harness's blob of it too, written
+	// with the exponent width the library chose
+	if own, w := libExpWidth(c); own != nil {
+		if diff := sameModuloTies(own, refBlob(c, w), nil); diff != "" {
+			fs = append(fs, vf.F("KeyCredential.ToBytes", "blob-differs-from-ms-adts-layout", "%s", diff))
 		}
 	}
 	return fs
@@ -891,7 +1045,9 @@ func checkReuseDN(c reuseCase, blobA, blobB []byte) []vf.Finding {
 
 func (c reuseCase) blobs() (a, b []byte, err error) {
 	if c.Foreign {
-		return refBlob(c.A), refBlob(c.B), nil
+		a, _ = foreignBlob(c.A)
+		b, _ = foreignBlob(c.B)
+		return a, b, nil
 	}
 	ka, _ := c.A.build()
 	kb, _ := c.B.build()
